@@ -53,6 +53,9 @@ type Contract struct {
 	DeadReturns map[int]string // returns that are unreachable under the contract (precondition or earlier checks), with the reason
 	Hides    []string // heap keys whose effects by this function are not reported to callers (assumption, with reason)
 	SpawnOnly     []string // callee names that this function may only start as goroutines (a direct call would block it)
+	NoCall        []string // callee names this function must not call at all (e.g. lock-taking accessors of state it updates)
+	NoCallTags    []string
+	NoCallWhy     string
 	SpawnOnlyTags []string
 	SpawnOnlyWhy  string
 	HidesWhy string
@@ -344,6 +347,20 @@ func parseClause(c *Contract, body, file string, ln int) error {
 			why = strings.Trim(strings.TrimSpace(rest[i:]), "\"")
 		}
 		c.DeadReturns[n] = why
+	case "nocall":
+		// nocall[tags] <callee>, <callee> "reason": a call of these callees in this function is a failed obligation. Used for
+		// atomicity: a function that tests and updates lock-protected state in one critical section must not take its decision
+		// from an accessor that takes (and releases) the lock itself.
+		if i := strings.Index(rest, "\""); i >= 0 {
+			c.NoCallWhy = strings.Trim(strings.TrimSpace(rest[i:]), "\"")
+			rest = rest[:i]
+		}
+		for _, m := range splitTop(rest, ",") {
+			if m = strings.TrimSpace(m); m != "" {
+				c.NoCall = append(c.NoCall, m)
+			}
+		}
+		c.NoCallTags = tags
 	case "spawnonly":
 		// spawnonly[tags] <callee>, <callee> "reason": this function must not wait for these callees - it may start them with
 		// `go` only. A direct (or deferred) call is a failed obligation; no `go` of the callee at all is a binding error.
@@ -462,7 +479,7 @@ func parseClause(c *Contract, body, file string, ln int) error {
 		if _, err := strconv.Atoi(f[1]); err == nil { // "make 2" / "return 3"
 			label = f[0] + " " + f[1]
 			idx = 2
-		} else if f[0] == "call" { // "call name#k"
+		} else if f[0] == "call" || f[0] == "after" { // "call name#k", "after name#k"
 			label = f[0] + " " + f[1]
 			idx = 2
 		}
